@@ -137,11 +137,103 @@ def wl_fault(tier, seed):
     return [("fault", out, dict(per_tlc=4 if tier == "quick" else 8, tlc_jobs=8, max_slots=300))]
 
 
+def wl_params(tier, seed):
+    import random
+    rng = random.Random(seed)
+    nhist, nconf = (3, 4) if tier == "quick" else (10, 12)
+    out = []
+    i = 0
+    for h in range(nhist):
+        hseed = seed * 1000 + 600 + h
+        for c in range(nconf):
+            bk = rng.choice(gen.BUCKET_PARAMS_Q) if not (tier == "thorough" and c == 0 and h < 2) else ["Default"]
+            bufs = [rng.choice(gen.BUF_PARAMS) for _ in range(3)]
+            reopen = rng.choice(gen.REOPEN_PARAMS)
+            out.append(gen.gen_params(hseed, idbase=i * IDSTEP, nops=180 if tier == "quick" else 500, buckets=bk, bufs=bufs, reopen=reopen,
+                                      kt=gen.KTS[h % 2], name="params_h%d_c%d" % (h, c)))
+            i += 1
+    # dedicated scenario of known finding D9: a PerMille(<1000) buffer on a file that passes one chunk
+    out.append(gen.gen_params(seed * 1000 + 699, idbase=i * IDSTEP, nops=120, buckets=["BucketsSize", 8],
+                              bufs=[["PerMille", 1000], ["PerMille", 500], ["PerMille", 1000]], tag="D9_permille_lt_1000", name="params_d9"))
+    return [("params", out, dict(per_tlc=3 if tier == "quick" else 6, tlc_jobs=8, max_slots=300, op_timeout=10))]
+
+
+def wl_multi(tier, seed):
+    cnt, nops = (6, 200) if tier == "quick" else (60, 800)
+    out = [gen.gen_multi(seed * 1000 + 700 + i, idbase=i * IDSTEP, nops=nops, nmaps=2 + i % 4, name="multi_%d" % i) for i in range(cnt)]
+    return [("multi", out, dict(per_tlc=2 if tier == "quick" else 5, tlc_jobs=8, max_slots=300))]
+
+
+RO_SIZES = [("BucketsSize", 1), ("BucketsSize", 4), ("BucketsSize", 8), ("BucketsSize", 16), ("Capacity", 12), ("Capacity", 24), ("BucketsSize", 32),
+            ("BucketsSize", 64), ("BucketsSize", 128), ("BucketsSize", 256), ("BucketsSize", 2048), ("BucketsSize", 65536)]
+
+
+def wl_readonly(tier, seed):
+    out = []
+    i = 0
+    reps = 1 if tier == "quick" else 6
+    for rep in range(reps):
+        for nb in RO_SIZES:
+            for state in (("empty", "dense") if tier == "quick" and i % 2 else ("empty", "emptied", "dense", "sparse")):
+                out.append(gen.gen_readonly(seed * 1000 + 800 + i, idbase=i * IDSTEP, nb=nb, state=state, kt=gen.KTS[i % 5],
+                                            nro=40 if tier == "quick" else 120, name="ro_%s%d_%s" % (nb[0][0], nb[1], state)))
+                i += 1
+    return [("readonly", out, dict(per_tlc=6, tlc_jobs=8, max_slots=300))]
+
+
+def wl_twice(tier, seed):
+    import random
+    rng = random.Random(seed)
+    cnt, nops = (8, 120) if tier == "quick" else (60, 600)
+    out = []
+    for i in range(cnt):
+        nb = rng.choice([("BucketsSize", 1), ("BucketsSize", 16), ("BucketsSize", 32), ("BucketsSize", 64), ("Capacity", 100), ("BucketsSize", 1024)])
+        bufs = None if i % 2 == 0 else [rng.choice(gen.BUF_PARAMS) for _ in range(3)]
+        out.append(gen.gen_twice(seed * 1000 + 900 + i, idbase=i * IDSTEP, nops=nops, nb=nb, kt=gen.KTS[i % 5], bufs=bufs, name="twice_%d" % i,
+                                 nkeys=20 if i % 2 else 3))
+    return [("twice", out, dict(per_tlc=2 if tier == "quick" else 5, tlc_jobs=8, max_slots=300))]
+
+
+def wl_wrongtype(tier, seed):
+    if tier == "quick":
+        return [("wrongtype", [gen.gen_wrongtype(seed * 1000 + 1, idbase=0, sigvals=4, name="wrongtype")], dict(per_tlc=1, tlc_jobs=2, op_timeout=40))]
+    out = [gen.gen_wrongtype(seed * 1000 + 1 + i, idbase=i * IDSTEP, sigvals=255 if i == 0 else 16, name="wrongtype_%d" % i) for i in range(4)]
+    return [("wrongtype", out, dict(per_tlc=1, tlc_jobs=4, op_timeout=40))]
+
+
+def wl_bulk(tier, seed):
+    cnt, nops = (8, 150) if tier == "quick" else (60, 700)
+    out = [gen.gen_bulk(seed * 1000 + 20 + i, idbase=i * IDSTEP, nops=nops, kt=gen.KTS[i % 5],
+                        nb=[("BucketsSize", 16), ("BucketsSize", 1), ("Capacity", 200)][i % 3], name="bulk_%d" % i) for i in range(cnt)]
+    return [("bulk", out, dict(per_tlc=2 if tier == "quick" else 5, tlc_jobs=8, max_slots=300))]
+
+
+def wl_conv(tier, seed):
+    extra = 10000 if tier == "quick" else 300000
+    per = 6000
+    convs = [gen.gen_conv(seed * 1000 + 40 + i, idbase=i * IDSTEP, extra=min(per, extra - i * per), name="conv_%d" % i)
+             for i in range(max(1, extra // per))]
+    typed = []
+    cnt = 9 if tier == "quick" else 60
+    for i in range(cnt):
+        kt = ["u64", "i64", "vu64"][i % 3]
+        nb = [("BucketsSize", 1), ("BucketsSize", 2), ("Capacity", 40)][(i // 3) % 3]
+        typed.append(gen.gen_typed(seed * 1000 + 60 + i, idbase=(100 + i) * IDSTEP, kt=kt, nb=nb, nops=200 if tier == "quick" else 600, name="typed_%s_%d" % (kt, i)))
+    return [("conv", convs, dict(per_tlc=1, tlc_jobs=8)), ("typed", typed, dict(per_tlc=3, tlc_jobs=8))]
+
+
 def mc_buf(tier):
     return [dict(module="MCStore_q.tla", cfg="MCStore_q.cfg", workers=8)]
 
 
 PLANS = {
+    "C13": dict(attr=["C13."], mc=mc_buf, workloads=wl_wrongtype, assumptions=COMMON_ASSUME),
+    "C14": dict(attr=["C14.", "C01.result", "C02.content", "C01.outcome"], mc=mc_buf, workloads=wl_bulk, assumptions=COMMON_ASSUME),
+    "C10": dict(attr=["C10.", "C01.result", "C04.items", "C05.content", "C05.nodup", "C02.content", "C01.outcome"], mc=mc_buf, workloads=wl_conv, assumptions=COMMON_ASSUME),
+    "C07": dict(attr=["C07.", "C01.", "C02.content", "C04."], mc=mc_buf, workloads=wl_params, assumptions=COMMON_ASSUME),
+    "C11": dict(attr=["C11.", "C01.result", "C01.outcome", "C04.", "C02.content"], mc=mc_buf, workloads=wl_multi, assumptions=COMMON_ASSUME),
+    "C15": dict(attr=["C15.", "C02.content"], mc=mc_buf, workloads=wl_readonly, assumptions=COMMON_ASSUME),
+    "C18": dict(attr=["C18."], mc=mc_buf, workloads=wl_twice, assumptions=COMMON_ASSUME),
     "C02": dict(attr=["C02.", "C01.result", "C01.outcome", "C05.content"], mc=mc_buf, workloads=wl_reopen, assumptions=COMMON_ASSUME),
     "C03": dict(attr=["C03."], mc=mc_buf, workloads=wl_sync, assumptions=COMMON_ASSUME),
     "C16": dict(attr=["C16.", "C03.outcome", "C01.result"], mc=mc_buf, workloads=wl_fault, assumptions=COMMON_ASSUME),
